@@ -21,7 +21,15 @@ impl<F: Flavour> World<F> {
         let nodes: Vec<F::Node> = prios
             .iter()
             .enumerate()
-            .map(|(k, p)| F::node_new(k, NVal::new(*p, k as u64)))
+            .map(|(k, p)| {
+                // (one run in eight: every node is born on a thread of its own - whatever a
+                // library keeps per thread starts from scratch for each of them)
+                if crate::keys::nodes_born_elsewhere() {
+                    F::node_new_elsewhere(k, NVal::new(*p, k as u64))
+                } else {
+                    F::node_new(k, NVal::new(*p, k as u64))
+                }
+            })
             .collect();
         let graph = if in_graph {
             let mut g = F::g_new();
